@@ -49,6 +49,21 @@ NS0 == {[path |-> Raw[q].path, depth |-> Raw[q].depth, leaf |-> Raw[q].leaf, fea
 Shape == /\ Len(Case.ev) = 4
          /\ EvFit.ev = "fit" /\ EvTree.ev = "tree" /\ EvPred.ev = "pred" /\ EvImp.ev = "imp"
 
+\* the harness really handed the records / probes over in the layout named by the case (a construction
+\* that silently collapses to standard layout would leave the layout dimension untested)
+ExpStrides(lay, nn, dd) ==
+  CASE lay = "std" -> <<dd, 1>>
+    [] lay = "forder" -> <<1, nn>>
+    [] lay = "tview" -> <<1, nn>>
+    [] lay = "revrows" -> <<-dd, 1>>
+    [] lay = "revcols" -> <<dd, -1>>
+    [] lay = "everyrow2" -> <<2 * dd, 1>>
+    [] lay = "everycol2" -> <<2 * dd, 2>>
+LayoutOk ==
+  /\ EvFit.lay = In.lay
+  /\ EvFit.strides = ExpStrides(In.lay, N, In.d)
+  /\ EvPred.pstrides = ExpStrides(In.lay, Len(EvPred.probe), In.d)
+
 \* every split node has two children, a leaf none (as reported by children()); numbers are usable
 RawOk(ns) ==
   /\ Len(Raw) > 0 /\ Cardinality(ns) = Len(Raw)
@@ -121,6 +136,7 @@ Common(ns, dd, hh) ==
   IF ~Shape THEN (IF Len(Case.ev) > 0 /\ Case.ev[Len(Case.ev)].ev = "panic"
                     THEN "panic@" \o Case.ev[Len(Case.ev)].at ELSE "shape")
   ELSE IF ~EvFit.ok THEN "fit.ok"
+  ELSE IF ~LayoutOk THEN "layout"
   ELSE IF ~RawOk(ns) THEN "children"
   ELSE IF ~WellFormed(ns, In.d) THEN "wellformed"
   ELSE IF ~DepthOk(ns, hh) THEN "max_depth"
